@@ -219,7 +219,7 @@ def run(F, R, tier):
         g = F.fn(tab.get(nm, ""))
         if not R.anchor("builtin " + nm, g):
             continue
-        b = H.inline_helpers(F, H.body_of(g), skip=(P + "format_buf",))
+        b = H.beta(H.inline_helpers(F, H.body_of(g), skip=(P + "format_buf",)))
         uses_fb = any(c.get("k") == "call" and c.get("callee") == P + "format_buf" for c in H.walk(b))
         per_path = set()
         for evs, ex in H.paths(b, lambda c: None, limit=2000):
